@@ -723,3 +723,126 @@ func flipLiteralCase(n *node) (*node, bool) {
 	}
 	return &cp, changed
 }
+
+// ---------------------------------------------------------------------------------------
+// Sizes: argument lists, operator chains and nestings of 15 .. 1000 items (around the powers of two), described rather
+// than spelled out. The expected value is plain integer arithmetic of the written expression.
+
+type c01BigCase struct {
+	Shape string `json:"shape"` // args | argsComputed | leftChain | rightChain | parens | nestedCalls
+	N     int    `json:"n"`
+	Safe  bool   `json:"safe"`
+}
+
+func (c c01BigCase) build() (text string, want val) {
+	n := c.N
+	var sb strings.Builder
+	switch c.Shape {
+	case "args", "argsComputed":
+		els := make([]val, n)
+		sb.WriteString("Tup(")
+		for i := 1; i <= n; i++ {
+			if i > 1 {
+				sb.WriteString(", ")
+			}
+			if c.Shape == "args" {
+				fmt.Fprintf(&sb, "%d", i)
+			} else {
+				fmt.Fprintf(&sb, "%d + %d * 2", i%3, i) // a computation among the pending values
+			}
+			els[i-1] = vInt(i)
+			if c.Shape == "argsComputed" {
+				els[i-1] = vInt(i%3 + i*2)
+			}
+		}
+		sb.WriteString(")")
+		return sb.String(), vArray(els...)
+	case "leftChain":
+		for i := 1; i <= n; i++ {
+			if i > 1 {
+				sb.WriteString(" + ")
+			}
+			fmt.Fprintf(&sb, "%d", i)
+		}
+		return sb.String(), vInt(n * (n + 1) / 2)
+	case "rightChain":
+		// 1 - (2 - (3 - ... (n * 2)))
+		acc := n * 2
+		for i := n - 1; i >= 1; i-- {
+			acc = i - acc
+		}
+		for i := 1; i < n; i++ {
+			fmt.Fprintf(&sb, "%d - (", i)
+		}
+		fmt.Fprintf(&sb, "%d * 2", n)
+		sb.WriteString(strings.Repeat(")", n-1))
+		return sb.String(), vInt(acc)
+	case "parens":
+		return strings.Repeat("(", n) + "7" + strings.Repeat(")", n) + " + 1", vInt(8)
+	case "nestedCalls":
+		for i := 1; i < n; i++ {
+			fmt.Fprintf(&sb, "Max(%d, ", i)
+		}
+		fmt.Fprintf(&sb, "%d", n)
+		sb.WriteString(strings.Repeat(")", n-1))
+		return sb.String(), vInt(n)
+	}
+	return "", vNull()
+}
+
+func checkC01Big(c c01BigCase) (res *evid.Fail) {
+	text, want := c.build()
+	desc := fmt.Sprintf("%s of %d items", c.Shape, c.N)
+	if g := guard(func() {
+		calc := calculator.NewExpressionCalculator()
+		calc.SetVariantOperations(opsManager(c.Safe))
+		if err := calc.SetExpression(text); err != nil {
+			res = evid.F("well-formed-rejected:sizes", "%s (%.80s ...) was rejected: %v", desc, text, err)
+			return
+		}
+		for round := 1; round <= 2; round++ {
+			v, err := calc.EvaluateUsingVariablesAndFunctions(nil, c01Functions())
+			if err != nil || v == nil {
+				res = evid.F("error-where-value-expected:sizes", "%s (%.80s ...), evaluation %d: %v", desc, text, round, err)
+				return
+			}
+			if got := fromVariant(v); !equalVal(got, want) {
+				g, w := got.String(), want.String()
+				if len(g) > 200 {
+					g, w = g[:100]+" ... "+g[len(g)-100:], w[:100]+" ... "+w[len(w)-100:]
+				}
+				res = evid.F("value-mismatch:sizes:"+c.Shape, "%s (%.80s ...), evaluation %d: the calculator returned %s, the written expression denotes %s", desc, text, round, g, w)
+				return
+			}
+		}
+	}); g != nil {
+		g.Msg = desc + ": " + g.Msg
+		return g
+	}
+	return res
+}
+
+func init() { regReplay("C01.big", checkC01Big) }
+
+func TestC01_EnumSizes(t *testing.T) {
+	rec := evid.New("C01", "TestC01_EnumSizes", "C01.big", "sizes: calls with N plain and N computed arguments (the harness function returns its arguments as an array), left and right operator chains of N operands, N nested parentheses, N nested calls, N = 15..17, 31..33, 63..65, 127..129, 255..257, 1000, x 2 managers, each evaluated twice; oracle: integer arithmetic of the written expression; distinct by case")
+	rec.Exhaustive = true
+	rec.DupFree = true
+	defer finish(t, rec)
+	var cases []c01BigCase
+	for _, shape := range []string{"args", "argsComputed", "leftChain", "rightChain", "parens", "nestedCalls"} {
+		for _, n := range []int{15, 16, 17, 31, 32, 33, 63, 64, 65, 127, 128, 129, 255, 256, 257, 1000} {
+			for _, safe := range []bool{false, true} {
+				cases = append(cases, c01BigCase{shape, n, safe})
+			}
+		}
+	}
+	rec.Bounds = fmt.Sprintf("%d described expressions", len(cases))
+	parallelFor(len(cases), func(i int) {
+		c := cases[i]
+		rec.Case(jsonStr(c), true, func() interface{} { return c }, "shape:"+c.Shape)
+		if f := checkC01Big(c); f != nil {
+			rec.Fail(f, c)
+		}
+	})
+}
